@@ -203,9 +203,45 @@ def gen_collide(rng):
     return f
 
 
+CHAIN_OPS = [("b", "and"), ("b", "or"), ("b", "implies"), ("b", "iff"), ("b", "xor"), ("t2", "until"), ("t2", "since")]
+ARITH_OPS = ["add", "sub", "mul"]      # (no division: a zero denominator raises ZeroDivisionError, outside this property)
+
+
+def gen_chain(rng):
+    """Two or three binary operators in a row: the minimal rendering has no parentheses where precedence and (left)
+    associativity of the grammar make them redundant - `a -> b -> c` is `(a -> b) -> c`."""
+    def leaf():
+        if rng.random() < 0.6:
+            return ("v", rng.choice(VARS))
+        return ("b", rng.choice(["ge", "le", "gt", "lt"]), ("v", rng.choice(VARS)), ("c", rng.choice([0.0, 1.0, 2.0])))
+
+    def mk(op, l, r):
+        return (op[0], op[1], l, r)
+    if rng.random() < 0.25:
+        # arithmetic chains under a comparison
+        o1, o2 = rng.choice(ARITH_OPS), rng.choice(ARITH_OPS)
+        x, y, z = (("v", rng.choice(VARS)) for _ in range(3))
+        t = ("b", o2, ("b", o1, x, y), z) if rng.random() < 0.6 else ("b", o1, x, ("b", o2, y, z))
+        return ("b", rng.choice(["ge", "le"]), t, ("c", 1.0))
+    o1 = rng.choice(CHAIN_OPS)
+    o2 = o1 if rng.random() < 0.5 else rng.choice(CHAIN_OPS)
+    x, y, z = leaf(), leaf(), leaf()
+    f = mk(o2, mk(o1, x, y), z) if rng.random() < 0.6 else mk(o1, x, mk(o2, y, z))
+    if rng.random() < 0.3:
+        o3 = rng.choice([o1, o2, rng.choice(CHAIN_OPS)])
+        f = mk(o3, f, leaf()) if rng.random() < 0.6 else mk(o3, leaf(), f)
+    return f
+
+
 def explore(ctx, rng, count):
     for i in range(count):
-        if i % 7 == 6:
+        if i % 6 == 1:
+            f = gen_chain(rng)
+            n = rng.randint(2, 8)
+            data = F.gen_trace(rng, F.variables(f), n)
+            ctx.count("gen:operator-chain")
+            v, d = check_case(ctx, f, data, n, rng)
+        elif i % 7 == 6:
             f = gen_collide(rng)
             n = rng.randint(2, 8)
             data = F.gen_trace(rng, F.variables(f), n)
